@@ -37,6 +37,7 @@ type PairOpts struct {
 	Pre             map[string]model.Val // host pre-population of the store
 	Seed            string
 	ExtraFuncs      map[string]model.Fn // additional host functions (same for both sides)
+	ExtraCmds       []string            // additional logging commands registered under these names
 }
 
 // NewPair creates both sides. loadErr/panicked report a failure of NewDialogueRunner.
@@ -48,7 +49,13 @@ func NewPair(prog *hast.Program, scripts []string, o PairOpts, garbage *core.Ran
 		mfuncs[k] = f
 		rfuncs[k] = f
 	}
-	host := &model.Host{Funcs: mfuncs, Cmds: mon.FlowCmds(p.MLog)}
+	mcmds, rcmds := mon.FlowCmds(p.MLog), mon.FlowCmds(p.RLog)
+	for _, name := range o.ExtraCmds {
+		name := name
+		mcmds[name] = func(a []model.Val) error { p.MLog.Add("<<" + name + " " + mon.FmtArgs(a) + ">>"); return nil }
+		rcmds[name] = func(a []model.Val) error { p.RLog.Add("<<" + name + " " + mon.FmtArgs(a) + ">>"); return nil }
+	}
+	host := &model.Host{Funcs: mfuncs, Cmds: mcmds}
 	p.M = model.New(prog, host, o.Pre)
 	var st variable.Storer
 	if o.UseDefaultStore {
@@ -69,7 +76,7 @@ func NewPair(prog *hast.Program, scripts []string, o PairOpts, garbage *core.Ran
 		return p, err, pan
 	}
 	p.R = r
-	r.Install(rfuncs, mon.FlowCmds(p.RLog))
+	r.Install(rfuncs, rcmds)
 	return p, nil, ""
 }
 
